@@ -4,7 +4,7 @@
 From Coq Require Import List NArith Bool Arith Sorted.
 From Coq Require Import Strings.Byte.
 Require Import BS.Bytes BS.Common BS.Api BS.Layout BS.Format BS.FormatFacts BS.Spec BS.SpecStep.
-Require Import BS.FS BS.FSFacts BS.Meta BS.MetaFacts BS.Header BS.Reader BS.ReaderFacts BS.Index BS.Data BS.DataFacts BS.Seek BS.Series BS.SeriesFacts BS.ReadAllFacts BS.CorruptFacts.
+Require Import BS.FS BS.FSFacts BS.Meta BS.MetaFacts BS.Header BS.Reader BS.ReaderFacts BS.Index BS.Data BS.DataFacts BS.Seek BS.Series BS.SeriesFacts BS.ReadAllFacts BS.CorruptFacts BS.ExtractFacts BS.RangeFacts BS.Sections BS.LenientFacts.
 Import ListNotations.
 
 
@@ -43,7 +43,31 @@ Theorem C18_no_consent : forall (St:Type) (proc:St -> N -> list byte -> pres St)
     end.
 Proof. exact read_no_consent. Qed.
 Print Assumptions C18_no_consent.
-(* partial: (1) that the certified lines of a file with ONE damaged line are a subsequence of the appended lines is
-   checked by the judge for every history it sees (Spec.is_subseq in SpecStep.open_damaged), not proved for all
-   histories; (2) the theorems are about the reader; the seek that precedes a read between bounds decodes damaged
-   lines too and is judged only for "genuine lines or an error". *)
+(* (F/S) the certified lines are genuine. The slots of the encoding of a well-formed series are those of its sections
+   (ExtractFacts.encode_slots); one of them is damaged:
+   kind 1 - the second marker line of a section becomes a non-marker (no continuation slot of that section looks like a
+   marker): the decoder certifies exactly the lines of all OTHER sections;
+   kind 2 - the delta of a data line that is followed by another line of its section becomes the marker pattern: the decoder
+   certifies the lines of the other sections and those of the damaged section before the damaged line.
+   In both cases: a sublist of the appended lines (each with its original timestamp and payload), nothing made up, one lone
+   marker, and the decoder is back in step from the next section on. With C18_consent the reader returns exactly these. *)
+Theorem C18_second_marker_lost : forall p (pre post:list (N * list (N * list byte))) s x',
+  good_secs p (pre ++ s :: post) -> nm_sec p s -> Layout.is_marker x' = false ->
+  let sc := fold_left (lstep p) (concat (map (sslots p) pre) ++ damaged1 p s x' ++ concat (map (sslots p) post)) lscan0 in
+  rev (l_sure sc) = bodies pre ++ bodies post /\ l_bad sc = false /\ l_lone sc = 1
+  /\ sublist (rev (l_sure sc)) (bodies (pre ++ s :: post))
+  /\ (post <> [] -> exists f, l_st sc = LN (Some f) false).
+Proof. exact certified_second_marker_lost. Qed.
+Print Assumptions C18_second_marker_lost.
+
+Theorem C18_delta_lost : forall p (pre post:list (N * list (N * list byte))) f (a:list (N * list byte)) y z b m,
+  good_secs p (pre ++ (f, a ++ y :: z :: b) :: post) -> Layout.is_marker m = true ->
+  let sc := fold_left (lstep p) (concat (map (sslots p) pre) ++ damaged2 p f a y z b m ++ concat (map (sslots p) post)) lscan0 in
+  rev (l_sure sc) = bodies pre ++ a ++ bodies post /\ l_bad sc = false /\ l_lone sc = 1
+  /\ sublist (rev (l_sure sc)) (bodies (pre ++ (f, a ++ y :: z :: b) :: post))
+  /\ (post <> [] -> exists f', l_st sc = LN (Some f') false).
+Proof. exact certified_delta_lost. Qed.
+Print Assumptions C18_delta_lost.
+(* partial: the theorems above are about the reader and the decoder; the seek that precedes a read between bounds decodes damaged
+   lines too and is judged only for "genuine lines or an error". A damaged data line directly in front of a section header
+   (three marker lines in a row) is not the lone-marker pattern of the property and is outside these statements. *)
